@@ -96,6 +96,17 @@ fn recv_body_inner(api: &str, head: &[u8]) -> Option<Rut> {
             _ => None,
         };
     }
+    if api == "flow" && v % 7 == 5 && !head.starts_with(b"HTTP/1.1 100") && !head.starts_with(b"\r\n") {
+        // the response arrives while the request still awaits 100-continue: the request body is never sent, the response
+        // body is read like any other
+        let mut f = crate::fx::flow_recv_response_after_refusal(["POST", "PUT"][(v / 7) % 2], head).expect("harness: reach RecvResponse after a refusal");
+        let (n, r) = f.try_response(head).unwrap();
+        assert!(r.is_some() && n == head.len(), "harness: head not accepted");
+        return match f.proceed().unwrap() {
+            RecvResponseResult::RecvBody(f) => Some(Rut::Flow(f)),
+            _ => None,
+        };
+    }
     let req = Request::get("http://h.test/data").body(()).unwrap();
     let mut buf = vec![0u8; 1024];
     // the head arrives line by line (not for 3xx heads: what happens inside those after the Location line is C05's KF1)
